@@ -517,4 +517,63 @@ example : ∃ s, Reachable s ∧ (delivered s).map (·.due) = [3, 1, 4] := by
   obtain ⟨s, hs, _, hh⟩ := reachable_of_spec hr
   exact ⟨s, ⟨1, _, hs⟩, by show ((s.h.log.map (·.ev)).reverse).map (·.due) = _; rw [hh]; exact h1⟩
 
+/-! ### non-vacuity of the theorems about postponements, per-listener passes, clear and archive -/
+
+/-- two listeners; `PostponeAllEvents(2, 1)` moves event 2 from due time 2 onto a tie with event 3 (it goes
+    behind it); the per-listener pass of listener 1 at time 3 delivers event 1, whose response postpones
+    listener 2's type-1 event once more (to 7); listener 2's due event 3 is not delivered by that pass -/
+def demoOps2 : List Op :=
+  [.newl 1, .newl 2, .handler 1 1 [.postpone 2 1 4],
+   .act (.post 1 1 2 0), .act (.post 2 1 2 0), .act (.post 2 2 3 1), .act (.post 1 2 9 0),
+   .act (.postponeAll 2 1), .act (.tick 3), .processL 1]
+
+theorem demo2_reach : ∃ s, Reachable s ∧ (delivered s).map (·.id) = [1] ∧
+    pending s = [⟨3, 2, 2, 3, 1, 3⟩, ⟨2, 2, 1, 7, 0, 6⟩, ⟨4, 1, 2, 9, 0, 4⟩] ∧
+    s.h.postponed.map (fun e => (e.id, e.due)) = [(2, 3), (2, 2)] ∧ s.h.alive = [2, 1] ∧ s.h.now = 3 ∧
+    s.h.log.map (·.glob) = [false] := by
+  have hspec : ∃ ss, Machine.run ListQ.impl (Machine.init ListQ.impl 2) demoOps2 = some ss ∧
+      (ss.h.log.map (·.ev)).reverse.map (·.id) = [1] ∧
+      ss.q = [⟨3, 2, 2, 3, 1, 3⟩, ⟨2, 2, 1, 7, 0, 6⟩, ⟨4, 1, 2, 9, 0, 4⟩] ∧
+      ss.h.postponed.map (fun e => (e.id, e.due)) = [(2, 3), (2, 2)] ∧ ss.h.alive = [2, 1] ∧ ss.h.now = 3 ∧
+      ss.h.log.map (·.glob) = [false] := ⟨_, rfl, by decide⟩
+  obtain ⟨ss, hr, h1, h2, h3, h4, h5, h6⟩ := hspec
+  obtain ⟨s, hs, hp, hh⟩ := reachable_of_spec hr
+  refine ⟨s, ⟨2, demoOps2, hs⟩, ?_, ?_, ?_, ?_, ?_, ?_⟩
+  · show ((s.h.log.map (·.ev)).reverse).map (·.id) = _
+    rw [hh]; exact h1
+  · rw [hp]; exact h2
+  · rw [hh]; exact h3
+  · rw [hh]; exact h4
+  · rw [hh]; exact h5
+  · rw [hh]; exact h6
+
+/-- a reachable state with a superseded version, a per-listener delivery, and a due event of another listener
+    that the per-listener pass left pending -/
+example : ∃ s, Reachable s ∧ s.h.postponed ≠ [] ∧ (∃ d ∈ s.h.log, d.glob = false) ∧
+    ∃ e ∈ pending s, e.due ≤ (s.h.now : Int) := by
+  obtain ⟨s, h, _, h2, h3, _, h5, h6⟩ := demo2_reach
+  refine ⟨s, h, ?_, ?_, ⟨⟨3, 2, 2, 3, 1, 3⟩, by rw [h2]; simp, by rw [h5]; decide⟩⟩
+  · intro e; simp [e] at h3
+  · cases hl : s.h.log with
+    | nil => simp [hl] at h6
+    | cons d t =>
+      rw [hl] at h6
+      exact ⟨d, by simp, by simpa using (List.cons.inj h6).1⟩
+
+/-- hypotheses of the new step theorems: from that state a postponement with a match, one without, a
+    `PostponeAllEvents`, a per-listener pass, `ClearEventList` and an archive round trip are accepted -/
+example : ∃ s, Reachable s ∧ (step s (.act (.postpone 2 1 1))).isSome ∧
+    (pending s).find? (fun e => e.lis == 2 && e.typ == 1) = some ⟨2, 2, 1, 7, 0, 6⟩ ∧
+    (step s (.act (.postpone 1 1 0))).isSome ∧ (pending s).find? (fun e => e.lis == 1 && e.typ == 1) = none ∧
+    (step s (.act (.postponeAll 1 5))).isSome ∧ (step s (.processL 2)).isSome ∧ (step s .clear).isSome ∧
+    (step s .saveLoad).isSome := by
+  obtain ⟨s, h, _, h2, _, h4, _⟩ := demo2_reach
+  refine ⟨s, h, ?_, by rw [h2]; decide, ?_, by rw [h2]; decide, ?_, ?_, ?_, ?_⟩ <;>
+    simp [step, Machine.step, Act.legalTop, h4]
+
+/-- hypotheses of `C08_nondecreasing` / `C08_stamp_is_posting_order`: a history with postponements but no
+    negative delay and no per-listener pass; a history without postponements -/
+example : (∀ op ∈ demoOps2.dropLast, Op.sat Act.nonneg False op) ∧ (∀ op ∈ demoOps, Op.sat Act.noPostpone True op) := by
+  constructor <;> simp [demoOps2, demoOps, Op.sat, Act.nonneg, Act.noPostpone]
+
 end Morfuse.EventQueue
